@@ -22,6 +22,32 @@ var c19Pool = []c19Param{
 	{"flag", "bool"}, {"skip", "bool"},
 	{"pt", "PT"},
 	{"f", "file"}, {"g", "file"},
+	// names that have another pool name as a proper prefix (pt/pt_alt, xt/xt_alt,
+	// a/a_2, f/f_idx), and a second struct type with bool and file members so that
+	// projections can stand in disabled modifiers and retains as well
+	{"pt_alt", "PT"}, {"xt", "XT"}, {"xt_alt", "XT"}, {"a_2", "int"}, {"f_idx", "file"},
+}
+
+// c19Siblings: when the first name is picked, the second is often added too.
+var c19Siblings = map[string]string{"pt": "pt_alt", "xt": "xt_alt", "a": "a_2", "f": "f_idx"}
+
+// c19Fields lists the members of the struct types as (name, type).
+var c19Fields = map[string][]c19Param{
+	"PT": {{"a", "int"}, {"b", "int"}},
+	"XT": {{"on", "bool"}, {"h", "file"}, {"n", "int"}},
+}
+
+func c19WithSiblings(r *rand.Rand, ps []c19Param) []c19Param {
+	for _, q := range ps {
+		if sib, ok := c19Siblings[q.Name]; ok && !c19Has(ps, sib) && r.Intn(2) == 0 {
+			for _, cand := range c19Pool {
+				if cand.Name == sib {
+					ps = append(ps, cand)
+				}
+			}
+		}
+	}
+	return ps
 }
 
 type c19Callable struct {
@@ -72,6 +98,8 @@ func c19Lit(r *rand.Rand, t string) string {
 		return "false"
 	case "PT":
 		return fmt.Sprintf("{a: %d, b: %d}", r.Intn(9), r.Intn(9))
+	case "XT":
+		return fmt.Sprintf("{on: %v, h: \"/p/%d\", n: %d}", r.Intn(2) == 0, r.Intn(9), r.Intn(9))
 	case "file":
 		return fmt.Sprintf("\"/p/%d\"", r.Intn(9))
 	}
@@ -95,6 +123,8 @@ func c19Exp(r *rand.Rand, t string, src c19Sources, depth int) string {
 			return fmt.Sprintf("{\"k\": %s, \"l\": %s}", c19Exp(r, "int", src, depth+1), c19Exp(r, "int", src, depth+1))
 		case "PT":
 			return fmt.Sprintf("{a: %s, b: %s}", c19Exp(r, "int", src, depth+1), c19Exp(r, "int", src, depth+1))
+		case "XT":
+			return fmt.Sprintf("{on: %s, h: %s, n: %s}", c19Exp(r, "bool", src, depth+1), c19Exp(r, "file", src, depth+1), c19Exp(r, "int", src, depth+1))
 		}
 	}
 	return c19Lit(r, t)
@@ -115,7 +145,10 @@ func c19Gen(r *rand.Rand) *c19Prog {
 	nPipes := 1 + r.Intn(4)
 	for i := 0; i < nStages; i++ {
 		s := &c19Callable{Name: fmt.Sprintf("ST%d", i)}
-		s.Ins = c19Pick(r, 1+r.Intn(3), nil)
+		if i > 0 && r.Intn(4) == 0 {
+			s.Name = p.Callables[i-1].Name + "_B" // a name that has another callable's name as a prefix
+		}
+		s.Ins = c19WithSiblings(r, c19Pick(r, 1+r.Intn(3), nil))
 		var avoid map[string]bool
 		if r.Intn(3) != 0 { // usually distinct in/out names, sometimes shared
 			avoid = map[string]bool{}
@@ -123,7 +156,7 @@ func c19Gen(r *rand.Rand) *c19Prog {
 				avoid[q.Name] = true
 			}
 		}
-		s.Outs = c19Pick(r, 1+r.Intn(3), avoid)
+		s.Outs = c19WithSiblings(r, c19Pick(r, 1+r.Intn(3), avoid))
 		if r.Intn(6) == 0 {
 			// a stage producing exactly the fields of PT (whole-call struct bindings)
 			s.Outs = []c19Param{{"a", "int"}, {"b", "int"}}
@@ -138,13 +171,15 @@ func c19Gen(r *rand.Rand) *c19Prog {
 	aliasN := 0
 	for i := 0; i < nPipes; i++ {
 		pl := &c19Callable{Name: fmt.Sprintf("PL%d", i), Pipe: true}
-		pl.Ins = c19Pick(r, 1+r.Intn(4), nil)
+		if r.Intn(4) == 0 {
+			pl.Name = p.Callables[len(p.Callables)-1].Name + "_P"
+		}
+		pl.Ins = c19WithSiblings(r, c19Pick(r, 1+r.Intn(4), nil))
 		src := c19Sources{}
 		for _, q := range pl.Ins {
 			src.add(q.Type, "self."+q.Name)
-			if q.Type == "PT" {
-				src.add("int", "self.pt.a")
-				src.add("int", "self.pt.b")
+			for _, fl := range c19Fields[q.Type] {
+				src.add(fl.Type, "self."+q.Name+"."+fl.Name)
 			}
 		}
 		var body strings.Builder
@@ -158,6 +193,11 @@ func c19Gen(r *rand.Rand) *c19Prog {
 			if used[id] || r.Intn(10) < 3 {
 				aliasN++
 				id = fmt.Sprintf("AL%d", aliasN)
+				if r.Intn(4) == 0 {
+					id = callee.Name + fmt.Sprintf("_%d", aliasN) // the callee's name is a prefix of the alias
+				} else if len(pl.CallIds) > 0 && r.Intn(5) == 0 {
+					id = pl.CallIds[len(pl.CallIds)-1] + "_X" // another call id is a prefix of the alias
+				}
 				if r.Intn(8) == 0 {
 					// an alias that is the name of some other callable not (yet) called here
 					o := p.Callables[r.Intn(len(p.Callables))]
@@ -253,10 +293,12 @@ func c19Gen(r *rand.Rand) *c19Prog {
 					continue
 				}
 				src.add(o.Type, id+"."+o.Name)
-				if o.Type == "PT" {
-					src.add("int", id+".pt.a")
-					src.add("int", id+".pt.b")
+				for _, fl := range c19Fields[o.Type] {
+					src.add(fl.Type, id+"."+o.Name+"."+fl.Name)
 					p.Features["projection"] = true
+					if fl.Type == "file" {
+						fileRefs = append(fileRefs, id+"."+o.Name+"."+fl.Name)
+					}
 				}
 				if o.Type == "file" {
 					fileRefs = append(fileRefs, id+"."+o.Name)
@@ -271,7 +313,7 @@ func c19Gen(r *rand.Rand) *c19Prog {
 		if len(pl.CallIds) == 0 {
 			continue
 		}
-		pl.Outs = c19Pick(r, 1+r.Intn(3), nil)
+		pl.Outs = c19WithSiblings(r, c19Pick(r, 1+r.Intn(3), nil))
 		body.WriteString("    return (\n")
 		for _, o := range pl.Outs {
 			fmt.Fprintf(&body, "        %s = %s,\n", o.Name, c19Exp(r, o.Type, src, 0))
@@ -303,7 +345,7 @@ func c19Gen(r *rand.Rand) *c19Prog {
 	}
 	p.Top = top.Name
 	var sb strings.Builder
-	sb.WriteString("filetype txt;\n\nstruct PT(\n    int a,\n    int b,\n)\n\n")
+	sb.WriteString("filetype txt;\n\nstruct PT(\n    int a,\n    int b,\n)\n\nstruct XT(\n    bool on,\n    file h,\n    int  n,\n)\n\n")
 	for _, c := range p.Callables {
 		if c.Pipe {
 			fmt.Fprintf(&sb, "pipeline %s(\n", c.Name)
